@@ -112,7 +112,7 @@ E2E_COMPS = ["b", "i", "a", "span", "strong", "em", "h1", "p", "u", "c1"]
 
 
 def e2e_cfg(**kw):
-    base = dict(p_fk=0.2, p_empty_comp=0.0, var_pool=E2E_VARS, comp_pool=E2E_COMPS, n_keys=(10, 18), n_locales=(2, 4), namespaces=0.3)
+    base = dict(p_fk=0.2, p_empty_comp=0.0, long_keys=[27, 29, 40, 53], var_pool=E2E_VARS, comp_pool=E2E_COMPS, n_keys=(10, 18), n_locales=(2, 4), namespaces=0.3)
     base.update(kw)
     return GenCfg(**base)
 
